@@ -67,6 +67,12 @@ theorem coh_bindCommitX (s : State) (pod : Pod) (ns name : String) (uid : Nat) (
   · exact coherent_of_eq h rfl rfl rfl rfl
   · exact coh_bindCommit s pod ns name uid node ips h
 
+theorem coh_bindFinish (s : State) (pod : Pod) (ns name : String) (uid : Nat) (node : String) (ips : List IP)
+    (ans : BindAnswer) (h : Coherent s) : Coherent (bindFinish Facts.good s pod ns name uid node ips ans).1 := by
+  rcases bindFinish_good_state s pod ns name uid node ips ans with e | e
+  · rw [e]; exact coherent_of_eq h rfl rfl rfl rfl
+  · rw [e]; exact coh_bindCommit s pod ns name uid node ips h
+
 /-- Bind without a crash plan (`withFaults` resets `crashMode`) -/
 theorem coh_bind (s : State) (ns name : String) (uid : Nat) (node : String) (ch : Choice) (h : Coherent s)
     (hcm : s.crashMode = false) : Coherent (bind Facts.good s ns name uid node ch).1 := by
@@ -103,7 +109,7 @@ theorem coh_bind (s : State) (ns name : String) (uid : Nat) (node : String) (ch 
                 ((bindAlloc s pod node { policy := policyOf pod, node := node, uid := pod.uid } infos ch.pick).2.2.filterMap id)
                 _ (ba.coherent (Or.inl hcm))
               split
-              · exact coh_bindCommitX _ _ _ _ _ _ _ bl.1
+              · exact coh_bindFinish _ _ _ _ _ _ _ _ bl.1
               · exact bl.1
 
 theorem coh_unbind (s : State) (pod : Pod) (h : Coherent s) : Coherent (unbind Facts.good s pod).1 := by
@@ -230,6 +236,18 @@ theorem coh_step (s : State) (m : Move) (h : Coherent s) : Coherent (step Facts.
     · split
       · exact h
       · exact coherent_of_eq h rfl rfl rfl rfl
+  | markTerminating ns name fault =>
+    simp only [step]; split
+    · exact h
+    · split
+      · exact h
+      · split
+        · exact coherent_of_eq h rfl rfl rfl rfl
+        · split
+          · exact coherent_of_eq h rfl rfl rfl rfl
+          · split
+            · exact coh_syncIPs _ _ _ (coh_withFaults _ fault 0 (coherent_of_eq h rfl rfl rfl rfl))
+            · exact coherent_of_eq h rfl rfl rfl rfl
   | runPod ns name =>
     simp only [step]; split
     · exact h
